@@ -11,6 +11,7 @@ import CoreDhcp.Props.C09
 import CoreDhcp.Props.C10
 import CoreDhcp.Props.C01
 import CoreDhcp.Props.C16
+import CoreDhcp.Props.C18
 import CoreDhcp.Props.C11
 import CoreDhcp.Props.C12
 import CoreDhcp.Props.C13
@@ -76,3 +77,10 @@ open CoreDhcp
 #print axioms C16_range_any_schedule
 #print axioms C16_prefix_any_schedule
 #print axioms C16_file_any_schedule
+#print axioms C18_holds
+#print axioms C18_plugin_list_exact
+#print axioms C18_rejects_bad_plugins
+#print axioms C18_rejects_listen_and_interface
+#print axioms C18_address_form
+#print axioms C18_rejects_bad_address
+#print axioms C18_needs_a_protocol
